@@ -59,7 +59,7 @@ Section Reload.
     apply bind_Ok in H as ([[[env cpk] e1] t3] & Hseal & H). injection H as <- _ _ _.
     apply of_option_Ok in Hmk.
     destruct (envelope_open_seal CS HL _ _ _ _ _ _ _ _ Hseal) as (kp & u & s & Hopen & Hcpk & _ & Hwf & _ & _).
-    apply (recover_keys_inv_open CS GL) in Hopen as [Hv Hp].
+    apply (recover_keys_inv_open CS HL GL) in Hopen as [Hv Hp].
     apply registration_upload_rt; cbn [ru_envelope ru_masking_key ru_client_s_pk]; auto.
     - eapply hkdf_expand_length; eauto.
     - rewrite <- Hcpk, Hp. now apply (g_pub_valid CS GL).
@@ -78,8 +78,8 @@ Section Reload.
     apply (blind_inv CS GL) in Hb as [Hr ->].
     pose proof (g_mul_valid CS GL _ _ HP Hr) as Hv.
     pose proof (g_identity_invalid CS GL _ Hv) as Hid.
-    pose proof (generate_ke1_layout CS _ _ _ _ Hke1) as (seed & _ & _ & Ln & Hd & Hpk & Hn).
-    pose proof (g_derive_valid CS GL _ _ _ _ Hd) as Hsk.
+    pose proof (generate_ke1_layout CS _ _ _ _ Hke1) as (seed & _ & Lseed & Ln & Hd & Hpk & Hn).
+    pose proof (g_derive_valid CS GL _ _ _ _ Lseed Hd) as Hsk.
     pose proof (g_pub_valid CS GL _ Hsk) as Hpkv. rewrite <- Hpk in Hpkv.
     split.
     - apply client_login_rt; cbn [cl_blind cl_request cl_ke1_state cq_blinded cq_ke1]; auto.
